@@ -156,6 +156,10 @@ type kworld struct {
 	disabledAt time.Time
 	// early variant: what was observed when AddConnNonTLSNonBlocking returned
 	overrideNote string
+	// the connection's read timer as the upgrade left it (read in the handler, right after
+	// Upgrade returned)
+	afterUpgrade    tstate
+	afterUpgradeSet bool
 	// bytes that completed nothing arrived (a fragment, a request head): whether they count as
 	// activity is left open, a firing up to their arrival + keep-alive time is accepted
 	slackHi time.Time
@@ -489,6 +493,7 @@ func kbody(c kcfg) func() {
 					}
 					// from here on the WebSocket keep-alive time applies
 					w.tick()
+					w.afterUpgrade, w.afterUpgradeSet = snapTimers(w.conn).t[0], true
 					w.upgraded = true
 					w.ka = wsKA
 					w.maybeFire("upgraded")
@@ -544,7 +549,11 @@ func kbody(c kcfg) func() {
 			if handledInsideAccept {
 				w.counters["first_unit_handled_inside_AddConnNonTLSNonBlocking"]++
 			}
-			if t := snapTimers(w.conn).t[0]; w.closes == 0 && t.armed && (w.disabled || t.when.After(w.hi) || t.when.Before(w.lo)) {
+			// (named only when somebody re-armed the timer AFTER the upgrade had left it cancelled or
+			// set: a wrong deadline that the upgrade itself left behind is not this defect)
+			t := snapTimers(w.conn).t[0]
+			rearmed := w.afterUpgradeSet && t.armed && (!w.afterUpgrade.armed || !t.when.Equal(w.afterUpgrade.when))
+			if w.closes == 0 && rearmed && (w.disabled || t.when.After(w.hi) || t.when.Before(w.lo)) {
 				want := fmt.Sprintf("the %s at %s had set %s", firstKind, rel(w.lo.Add(-w.ka)), w.dlString())
 				if w.disabled {
 					want = fmt.Sprintf("the upgrade at %s had cancelled the deadline (Upgrader.KeepaliveTime = 0)", rel(w.disabledAt))
